@@ -17,7 +17,7 @@ func init() { core.Register(c03{}) }
 func (c03) ID() string    { return "C03" }
 func (c03) Level() string { return "fault_enumeration" }
 func (c03) Rule() string {
-	return "cases = sequential workloads (puts, deletes, batches, explicit Sync, rotations, oversized values, clean restarts) per (SyncStrategy, FileIOType, DataFileSize); at EVERY hooked I/O event of the run (open/create, write before+after, sync before+after, truncate, map, close) whose on-disk or durability state differs from the previous image, three image classes are built from a byte-exact copy of the directory and reopened twice with the real Open: process death (admissible S_a or in-flight S_a+1), process death inside the write (first p bytes of the buffer, p at record/block/page boundaries +-8 and random), power loss (each unsynced tail cut to record/block boundaries +-8, random lengths, all lengths for tails <=48 B; zero-filled for pre-extended mmap files; admissible S_j, d<=j<=a+1 with d computed from durable offsets). Non-trivial case: >=1 rotation, >=1 batch, and >=20 images; distinct = hash of (config, op list)"
+	return "cases = sequential workloads (puts, deletes, batches, explicit Sync, rotations, oversized values, clean restarts) per (SyncStrategy, FileIOType, DataFileSize); at EVERY hooked I/O event of the run (open/create, write before+after, sync before+after, truncate, map, close) whose on-disk or durability state differs from the previous image, three image classes are built from a byte-exact copy of the directory and reopened twice with the real Open (every 24th recovered image, every 6th when a mutation was in flight, is then USED: put, committed batch, Sync, an unsynced put, clean restart, and under standard I/O a second crash tearing the unsynced put): process death (admissible S_a or in-flight S_a+1), process death inside the write (first p bytes of the buffer, p at record/block/page boundaries +-8 and random), power loss (each unsynced tail cut to record/block boundaries +-8, random lengths, all lengths for tails <=48 B; zero-filled for pre-extended mmap files; admissible S_j, d<=j<=a+1 with d computed from durable offsets). Non-trivial case: >=1 rotation, >=1 batch, and >=20 images; distinct = hash of (config, op list)"
 }
 func (c03) Assumptions() []string {
 	return []string{"power loss = loss of unsynced file tails only (no directory-entry loss, no reordering inside the synced prefix)",
@@ -59,7 +59,7 @@ func newCrashRun(w *core.Worker, res *core.Result, cfg core.Config, r *core.Rng,
 	root := w.Dir("root")
 	io := mon.NewIOLog()
 	cr := &crashRun{w: w, res: res, io: io, root: root, cfg: cfg, r: r.Fork(), tier: w.Tier, prop: prop,
-		powerLoss: true, partial: true, maxCuts: 10, maxPartials: 8, ever: map[string]bool{}}
+		powerLoss: true, partial: true, maxCuts: 10, maxPartials: 8, ever: map[string]bool{}, contEvery: 24}
 	if w.Tier == "thorough" {
 		// thorough spends its budget on ten times as many workloads rather than on denser
 		// sampling per event (measured: a workload costs ~100 s of one worker at 10/8)
